@@ -135,7 +135,7 @@ def swapL : List BGeom → List BGeom
 end
 
 def showFault : Fault → String
-  | .index => "index" | .nilDeref => "nilDeref" | .nilFunc => "nilFunc" | .explicit => "explicit" | .badState => "badState"
+  | .index => "index" | .nilDeref => "nilDeref" | .nilFunc => "nilFunc" | .explicit => "explicit" | .badState => "badState" | .fuel => "fuel"
 
 def judgeGeom (g : BGeom) (rhs : Tok) : String :=
   let run := emptyRun g
